@@ -20,11 +20,11 @@ SPEC = dict(
     partial="(i) PROVED about the executed model: the branch-and-bound descent over the exported real tree returns the "
             "triDist2-minimal face (mesh_nearest_eq_bruteforce) and the face with the smallest ray parameter "
             "(mesh_ray_eq_bruteforce), given XT.Valid (every node box contains the vertices below it; checked per run by "
-            "node_contains_triangles) and, for rays, HitInFace; findNearestPointToFace returns a point of the face "
-            "(triNearest_params/point); OBB distance and ray-entry bounds are admissible; 2-/3-point spheres contain (by "
+            "node_contains_triangles) and, for rays, HitInFace; findNearestPointToFace returns the closest point of the face "
+            "(triNearest_params/point/minimal: KKT + convexity on all 25 leaves of the seven regions), so the reported face "
+            "holds the nearest point of the whole surface (mesh_nearest_is_closest); OBB distance and ray-entry bounds are admissible; 2-/3-point spheres contain (by "
             "construction of the radius; no theorem on the centre choice or minimality); topology predicate sound. "
-            "(ii) PREDICATE ONLY: that findNearestPointToFace is the closest point of the face and that a face's ray hit "
-            "lies in the face (independent routines over all faces), inside/outside parity, normal overloads and smooth "
+            "(ii) PREDICATE ONLY: that a face's ray hit lies in the face (HitInFace; independent routine over all faces), inside/outside parity, normal overloads and smooth "
             "normals, OBB construction (eigen-decomposition + rotation search), n-point and 4-point spheres, PolygonalMesh "
             "file parsing (OBJ/VTP/STL incl. syntax variants), the 100*Eps angle tie-break of findNearestPoint. "
             "(iii) NOT COVERED: SmoothHeightMap's OBB tree, mesh/mesh collision, Geo::OBBTree, float instantiations, "
